@@ -68,6 +68,8 @@ pub enum PicSource {
 #[derive(Clone, Debug)]
 pub struct ServerConfig {
     pub password: Option<String>,
+    /// ACK code used to reject a wrong password (MPD: 3)
+    pub password_ack_code: u64,
     pub embedded: PicSource,
     pub cover: PicSource,
     pub binary_limit: usize,
@@ -75,7 +77,7 @@ pub struct ServerConfig {
 
 impl Default for ServerConfig {
     fn default() -> Self {
-        ServerConfig { password: None, embedded: PicSource::Empty, cover: PicSource::Empty, binary_limit: 8192 }
+        ServerConfig { password: None, password_ack_code: 3, embedded: PicSource::Empty, cover: PicSource::Empty, binary_limit: 8192 }
     }
 }
 
@@ -299,7 +301,7 @@ impl SimServer {
                 }
                 None => return true,
                 _ => {
-                    ack(out, 3, index, "password", "incorrect password");
+                    ack(out, self.cfg.password_ack_code, index, "password", "incorrect password");
                     return false;
                 }
             }
